@@ -279,7 +279,7 @@ def random_ops(cls, dt, rng):
             ops += [('SetMaOrder', k) for k in cls.ma]
         if cls.name == 'parma':
             ops += [('SetLag', l) for l in cls.lags]
-    ops += [('Call', 0), ('ReadPsd', 0), ('ReadPsd', 0), ('ReadPsd', 0), ('TouchCallerArray', 0)]
+    ops += [('Call', 0), ('ReadPsd', 0), ('ReadPsd', 0), ('ReadPsd', 0)]
     ops += [('GetConverted', s) for s in ('onesided', 'twosided', 'centerdc')]
     return ops
 
@@ -304,9 +304,6 @@ def directed_scripts(cls, dt):
          [rd, ['SetSampling', D.S1], rd, ['SetSampling', D.S1N], rd, ['SetScale', True], rd, ['SetSampling', D.S1], rd, ['SetSampling', D.S1N], ['GetConverted', 'centerdc']],
          # explicit computations repeated on one object, with frequency scaling on and off
          [['SetScale', True], rd, ['Call', 0], rd, ['Call', 0], rd, ['SetScale', False], ['Call', 0], rd, ['SetScale', True], ['Call', 0], ['Call', 0], rd],
-         # the caller goes on using the array it handed over (before and after the first estimate)
-         [['TouchCallerArray', 0], rd, ['TouchCallerArray', 0], rd, ['SetNFFT', 33], rd,
-          ['SetData', back], ['TouchCallerArray', 0], rd, ['GetConverted', 'centerdc']],
          # reading is not writing: every conversion is followed by a read, from every current layout
          [rd, ['SetSides', 'twosided'], ['GetConverted', 'onesided' if dt == 'real' else 'centerdc'], rd, ['GetConverted', 'centerdc'], rd,
           ['SetSides', 'centerdc'], ['GetConverted', 'onesided' if dt == 'real' else 'twosided'], rd, ['GetConverted', 'twosided'], rd,
